@@ -263,7 +263,7 @@ func c06Race(w *World, run *Run, sc c06Scenario, g *CmdGen, existing []string, l
 	gate := make(chan struct{})
 	w.mu.Lock()
 	w.OnHook = func(h HookRec) {
-		if h.Point != "deploy.lb.updated" || !strings.HasPrefix(h.Name, "race-") {
+		if h.Point != "deploy.healthy" || !strings.HasPrefix(h.Name, "race-") {
 			return
 		}
 		mu.Lock()
